@@ -229,6 +229,15 @@ class Facts:
                 v, x = st_.value, st_.targets[0].id
                 cond_like = isinstance(v, (ast.Compare, ast.BoolOp)) or (isinstance(v, ast.UnaryOp) and isinstance(v.op, ast.Not)) or \
                     (isinstance(v, ast.Constant) and isinstance(v.value, bool))
+                # a query whose answer is kept in a local and tested later (`found = os.path.exists(p)` ... `if found:`): the test is about that answer
+                query = isinstance(v, ast.Call) and ((dotted(v.func) or "") in ("os.path.exists", "os.path.isfile", "os.path.isdir", "isinstance", "hasattr", "callable") or
+                                                     (isinstance(v.func, ast.Attribute) and v.func.attr in ("exists", "is_dir", "is_file") and not v.args))
+                if query and not any(isinstance(y, ast.Name) and y.id == x for y in ast.walk(v)) and not any(isinstance(y, (ast.Await, ast.NamedExpr)) for y in ast.walk(v)):
+                    tag = "n%d" % node.id
+                    self._flagdefs[tag] = v
+                    key = ("flagdef", x, tag, unparse(v))
+                    state = _norm(frozenset(alt | {(key, True)}) for alt in state)
+                    return state
                 if cond_like and not any(isinstance(y, ast.Name) and y.id == x for y in ast.walk(v)) and \
                         not any(isinstance(y, (ast.Call, ast.Await, ast.NamedExpr)) and not (isinstance(y, ast.Call) and dotted(y.func) in ("len", "isinstance", "bool")) for y in ast.walk(v)):
                     tag = "n%d" % node.id
